@@ -345,7 +345,7 @@ fn calls_of(f: Family) -> Vec<Call> {
         Family::Reader => vec![Call::Read(3), Call::Read(0), Call::ReadVectored, Call::ReadExact(4), Call::ReadToEnd, Call::ReadToString],
         Family::BufReader => vec![Call::FillBuf, Call::Consume(0), Call::Consume(2), Call::ConsumeAll, Call::Read(3), Call::ReadLine],
         Family::Writer => vec![Call::Write(3), Call::Write(0), Call::WriteVectored, Call::WriteAll(5), Call::Flush],
-        Family::Seeker => vec![Call::SeekStart(5), Call::SeekCur(-2), Call::SeekCur(0), Call::SeekEnd(0), Call::SeekStart(99), Call::SeekCur(-99), Call::StreamPos, Call::Rewind, Call::Read(3), Call::BarSetPos],
+        Family::Seeker => vec![Call::SeekStart(5), Call::SeekCur(-2), Call::SeekCur(0), Call::SeekEnd(0), Call::SeekStart(150), Call::SeekCur(-99), Call::StreamPos, Call::Rewind, Call::Read(3), Call::BarSetPos],
     }
 }
 
